@@ -42,6 +42,8 @@ inductive Call where
   | setVersion (major minor : Nat)
   | selectFunction (i : Option Nat)
   | selectBlock (i : Option Nat)
+  /-- `select_function_by_name(name)`: the function whose id the first matching `OpName` names -/
+  | selectByName (name : List Nat)
   | popInstruction
 deriving Repr
 
@@ -63,6 +65,7 @@ structure BTables where
   opFunctionEnd : Nat
   opFunctionParameter : Nat
   opLabel : Nat
+  opName : Nat
   vFunctionControl : Nat
   vIdRef : Nat
   magic : Nat
@@ -118,6 +121,46 @@ def allocId (s : BState) : IdRule → BState × Option Nat
   | .fresh => ({ s with nextId := s.nextId + 1 }, some s.nextId)
   | .given (some v) => (s, some v)
   | .given none => ({ s with nextId := s.nextId + 1 }, some s.nextId)
+
+/-- outcome of the search of `select_function_by_name` -/
+inductive Found where
+  | idx (i : Nat)
+  | none
+  | panic (site : String)
+deriving Repr, DecidableEq
+
+/-- `for (idx, func) in functions { if func.def.unwrap().result_id.unwrap() == target { return idx } }` -/
+def funcWithId (target : Nat) : Nat → List (Function Inst) → Found
+  | _, [] => .none
+  | k, f :: fs =>
+    match f.def_ with
+    | none => .panic "select_function_by_name: def unwrap"
+    | some d =>
+      match d.rid with
+      | none => .panic "select_function_by_name: result_id unwrap"
+      | some r => if r == target then .idx k else funcWithId target (k + 1) fs
+
+/-- the loop of `select_function_by_name` over `debug_names` (indexing `operands[0]`, `operands[1]` can panic) -/
+def findByName (B : BTables) (fns : List (Function Inst)) (nm : List Nat) : List Inst → Found
+  | [] => .none
+  | dbg :: rest =>
+    if dbg.opcode == B.opName then
+      match dbg.operands with
+      | [] => .panic "select_function_by_name: operands[0]"
+      | .w v t :: more =>
+        if v == B.vIdRef then
+          match more with
+          | [] => .panic "select_function_by_name: operands[1]"
+          | .s b :: _ =>
+            if b == nm then
+              match funcWithId t 0 fns with
+              | .none => findByName B fns nm rest
+              | r => r
+            else findByName B fns nm rest
+          | _ :: _ => findByName B fns nm rest
+        else findByName B fns nm rest
+      | _ :: _ => findByName B fns nm rest
+    else findByName B fns nm rest
 
 def BState.step (B : BTables) (s : BState) : Call → BState × BOut
   | .id => ({ s with nextId := s.nextId + 1 }, .id s.nextId)
@@ -238,6 +281,13 @@ def BState.step (B : BTables) (s : BState) : Call → BState × BOut
       match s.module.functions[f]? with
       | none => (s, .panic "select_block: index")
       | some fn => if i < fn.blocks.length then ({ s with selBlk := some i }, .unit) else (s, .errBlockNotFound)
+  | .selectByName nm =>
+    match findByName B s.module.functions nm s.module.debugNames with
+    | .idx i =>
+      if i < s.module.functions.length then ({ s with selFn := some i, selBlk := none }, .unit)
+      else (s, .errFunctionNotFound)
+    | .none => (s, .errFunctionNotFound)
+    | .panic site => (s, .panic site)
   | .popInstruction =>
     match s.selFn, s.selBlk with
     | some f, some b =>
